@@ -96,7 +96,7 @@ namespace draft201909 {
             const validator_factory_factory_type& factory_factory, 
             const evaluation_options& options, schema_store_type* schema_store_ptr,
             const std::vector<resolve_uri_type<Json>>& resolve_funcs,
-            const std::unordered_map<std::string,bool>& vocabulary) noexcept
+            const std::unordered_map<std::string,bool>& vocabulary)
             : schema_validator_factory_base<Json>(schema_version::draft201909(), std::move(root_schema), 
               factory_factory, options, schema_store_ptr, resolve_funcs, vocabulary),
               factory_(this) 
